@@ -327,7 +327,13 @@ class Sandbox:
         self.target = None
         self._execute(code, filename, SandboxContextKind.RUN, threaded)
         if after is not None:
+            # Executing the `after` code forgets the outcome of the code itself;
+            # unless that code fails too, the run is still known by what
+            # happened to the student's program
+            main_exception, main_feedback = self.exception, self.feedback
             self._execute(after, filename, SandboxContextKind.RUN, threaded)
+            if self.exception is None:
+                self.exception, self.feedback = main_exception, main_feedback
         if real_io:
             self.clear_mocked_function('print')
             self.clear_input()
